@@ -27,6 +27,7 @@ from pyPRISM.core.Space import Space
 from .. import core
 from .. import refmodel as R
 from .. import gen as G
+from .. import tutorials as T
 
 PID = 'C06'
 RULE = ('cases = call histories on one solved object (2- and 3-component systems, two solver configurations): systematic part = every '
@@ -94,6 +95,17 @@ def base_specs(seed):
             out.append(sp)
     if len(out) < 2:
         raise core.HarnessError('C06: fewer than two base systems converge')
+    # two of the maintainers' own systems (tutorial NB7 copolymer solution with tabulated form factors; documentation quick-start)
+    for sp in (T.copolymer_spec('2'), T.quickstart_spec()):
+        ok = True
+        for solver in ('wolfe', 'armijo'):
+            method, opts = SOLVERS[solver]
+            res = G.solve(G.build(sp).createPRISM(), method, dict(opts, maxiter=60))
+            if res is None or not res.success:
+                ok = False
+                break
+        if ok:
+            out.append(sp)
     _good[seed] = out
     return out
 
@@ -314,6 +326,7 @@ def run_case(ctx, case):
     if compared_after_transform:
         ctx.nontrivial([case['spec'], case['solver'], case['history']])
     ctx.count('history_len', len(case['history']))
+    ctx.count('system', '%s L=%d' % (G.spec_signature(sp), sp['L']))
     ctx.sample({'system': G.spec_signature(sp), 'solver': case['solver'], 'history': case['history']}, limit=4)
 
 
